@@ -44,27 +44,31 @@ def withPack (p : Py Pdu) : Py (Pdu × Bytes) := do
   let raw ← p.pack
   pure (p, raw)
 
-/-- what an observer sees of an object state: reported lengths, flag, and what `pack()` gives -/
-def stateJ (p : Pdu) : Json :=
+/-- what an observer sees of an object state after a setter call: the exception category of the
+    call (`null` when accepted), reported lengths, flag, and what `pack()` gives -/
+def stateJE (e : Option Err) (p : Pdu) : Json :=
   let pk := p.pack
-  obj [("err", Json.null), ("packet_len", jn p.packetLen), ("dlen", jn p.header.dataFieldLen),
+  obj [("err", match e with | none => Json.null | some e => js e.name),
+       ("packet_len", jn p.packetLen), ("dlen", jn p.header.dataFieldLen),
        ("segmeta", jn p.header.segMeta),
        ("raw", match pk with | .ok b => jh b | .error _ => Json.null),
        ("pack_err", match pk with | .ok _ => Json.null | .error e => js e.name)]
 
-/-- the observable trace of a setter sequence. It stops at the first refused setter: what the object
-    looks like after a refused call is not part of the comparison (the model's `Pdu.step` keeps the
-    code's present behaviour for C11). -/
-def traceStates (p : Pdu) : List Setter → List Json × Option Pdu
-  | [] => ([], some p)
+def stateJ (p : Pdu) : Json := stateJE none p
+
+/-- the observable trace of a setter sequence: after every call (accepted or refused) the outcome
+    and the observable state. A refused call does not end the sequence: the state after it (proved
+    to be the state before it, `C07_step_refused`) is reported and the sequence continues. -/
+def traceStates (p : Pdu) : List Setter → List Json × Pdu
+  | [] => ([], p)
   | s :: rest =>
-    match p.step s with
-    | (q, none) => let r := traceStates q rest; (stateJ q :: r.1, r.2)
-    | (_, some e) => ([obj [("err", js e.name)]], none)
+    let r1 := p.step s
+    let r := traceStates r1.1 rest
+    (stateJE r1.2 r1.1 :: r.1, r.2)
 
 def traceJ (p : Pdu) (steps : List Setter) : Json :=
   let r := traceStates p steps
-  obj [("initial", stateJ p), ("steps", jarr r.1), ("final", jopt pduJ r.2)]
+  obj [("initial", stateJ p), ("steps", jarr r.1), ("final", pduJ r.2)]
 
 /-- decode `raw ++ suffix`; a documented refusal of a buffer with trailing octets is one of the two
     behaviours the statement allows, in which case the PDU alone is decoded (the implementation op
